@@ -265,10 +265,17 @@ def main(argv=None):
     ap.add_argument("--workers", type=int, default=None)
     ap.add_argument("--budget", type=int, default=None)
     ap.add_argument("--worker")
+    ap.add_argument("--fuzz-worker")
+    ap.add_argument("--fuzz", type=int, default=None, help="executions of the coverage-guided stage (0 = skip)")
     ap.add_argument("--no-evidence", action="store_true")
     a = ap.parse_args(argv)
     if a.worker:
         worker_main(*json.loads(a.worker))
+        return 0
+    if a.fuzz_worker:
+        from . import fuzz
+
+        fuzz.fuzz_worker(*json.loads(a.fuzz_worker))
         return 0
     prop = a.prop.upper()
     tier = a.tier or os.environ.get("VERIF_TIER") or "quick"
@@ -381,6 +388,35 @@ def _main(prop, tier, seed, a):
             print(f"  failed: {sig}: {message}")
             violations.append((sig, path))
 
+    # -- coverage-guided stage (atheris drives the same strategy and oracle) -----
+    n_fuzz = a.fuzz if a.fuzz is not None else getattr(mod, "FUZZ", {}).get(tier, 0)
+    if n_fuzz:
+        from . import fuzz
+
+        if not fuzz.available():
+            extra["coverage_guided"] = {"status": "skipped: atheris is not importable (run ./setup.sh)"}
+        else:
+            fz = fuzz.run_fuzz(prop, tier, seed, max(1, min(n_workers, n_fuzz // 200 or 1)), n_fuzz)
+            for sig in sorted(fz["failures"]):
+                rec = fz["failures"][sig]
+                path = write_replay(prop, sig, rec["message"], rec["details"], rec["case"], seed, tier)
+                print(f"  failed (coverage-guided stage): {sig} ({rec['count']} cases): {rec['message']}")
+                violations.append((sig, path))
+            extra["coverage_guided"] = {
+                "status": "ran",
+                "engine": "atheris %s / libFuzzer on hypothesis fuzz_one_input, pymablock instrumented, empty corpus, -runs bound"
+                % getattr(__import__("atheris"), "__version__", "3.x"),
+                "executions": fz["executions"],
+                "valid_cases_checked": fz["evaluations"],
+                "distinct_nontrivial": len(fz["nontrivial"]),
+                "classes": dict(sorted(fz["labels"].items())),
+                "shards": fz["shards"],
+                "max_edges_one_shard": fz["edges"],
+                "max_features_one_shard": fz["features"],
+                "corpus_units_total": fz["corpus_units"],
+                "failure_signatures": sorted(fz["failures"]),
+            }
+
     # -- evidence ---------------------------------------------------------------
     n_nontrivial = len(merged["nontrivial"])
     coverage = {
@@ -431,7 +467,9 @@ def _main(prop, tier, seed, a):
         raise HarnessError(f"required case classes never generated: {missing}")
     print(
         f"OK property={prop} tier={tier} seed={seed} cases={merged['evaluations']} "
-        f"nontrivial={n_nontrivial} wall={evidence['wall_s']}s"
+        f"nontrivial={n_nontrivial}"
+        + (f" fuzz_exec={extra['coverage_guided'].get('executions', 0)}" if "coverage_guided" in extra else "")
+        + f" wall={evidence['wall_s']}s"
     )
     return 0
 
